@@ -4,4 +4,4 @@ go 1.23
 
 require github.com/tormoder/fit v0.0.0
 
-replace github.com/tormoder/fit => /repo
+replace github.com/tormoder/fit => /root/work/c04/repo
